@@ -41,6 +41,7 @@ enum Op {
     IllTyped(u8),
     Human(usize),
     Values(u64),
+    TypeTables(u64),
     DropShared,
 }
 
@@ -170,6 +171,7 @@ fn run_op(op: &Op, prog: &[u8], wit: &[u8], mine: &mut Option<Arc<RedeemNode>>) 
             let bits: Vec<u8> = b.iter_compact().map(u8::from).collect();
             dig("values", &[&bits, &[u8::from(l.as_ref() == Some(&Value::u4(3)))], &[u8::from(a == b)]])
         }
+        Op::TypeTables(seed) => type_tables_op(*seed),
         Op::DropShared => {
             *mine = None;
             2
@@ -177,9 +179,87 @@ fn run_op(op: &Op, prog: &[u8], wit: &[u8], mine: &mut Option<Arc<RedeemNode>>) 
     }
 }
 
+fn final_digest(h: &mut Fnv, f: &simplicity::types::Final) {
+    h.u64(f.bit_width() as u64);
+    h.u8(u8::from(f.has_padding()));
+    h.bytes(f.tmr().as_ref());
+    let mut stack = vec![(f, 0usize)];
+    let mut n = 0;
+    while let Some((t, d)) = stack.pop() {
+        n += 1;
+        if n > 60 {
+            break;
+        }
+        match t.bound() {
+            simplicity::types::CompleteBound::Unit => h.u8(1),
+            simplicity::types::CompleteBound::Sum(a, b) => {
+                h.u8(2);
+                h.u64(a.bit_width() as u64);
+                if d < 8 {
+                    stack.push((b, d + 1));
+                    stack.push((a, d + 1));
+                }
+            }
+            simplicity::types::CompleteBound::Product(a, b) => {
+                h.u8(3);
+                h.u64(b.bit_width() as u64);
+                if d < 8 {
+                    stack.push((b, d + 1));
+                    stack.push((a, d + 1));
+                }
+            }
+        }
+    }
+}
+
+/// Touch every lazily initialised type table through several entry points, in a seeded order.
+/// The digest is order-independent per item (items are hashed in a canonical order), so threads
+/// that use different orders still have to agree with the sequential reference.
+fn type_tables_op(seed: u64) -> u64 {
+    use simplicity::types::Final;
+    let mut r = Rng::new(seed);
+    let mut items: Vec<u8> = (0..22).collect();
+    r.shuffle(&mut items);
+    let mut per_item: Vec<(u8, u64)> = Vec::new();
+    for it in items {
+        let mut h = Fnv::new();
+        match it {
+            0..=7 => {
+                if let Ok(t) = Final::buffer8_two_n_plus_one(it as usize) {
+                    final_digest(&mut h, &t);
+                }
+            }
+            8 => final_digest(&mut h, &Final::ctx8()),
+            9 => {
+                if let Ok(v) = Value::ctx8([7; 32], 99, &[1, 2, 3]) {
+                    final_digest(&mut h, v.ty());
+                    h.u8(u8::from(v.is_of_type(&Final::ctx8())));
+                    h.u64(v.compact_len() as u64);
+                }
+            }
+            10 | 11 => {
+                let n = (it - 10) as usize + 1;
+                if let Ok(v) = Value::buffer8_two_n_plus_one(n, &[0xab; 3][..(n + 1).min(3)]) {
+                    final_digest(&mut h, v.ty());
+                    h.u64(v.compact_len() as u64);
+                }
+            }
+            _ => final_digest(&mut h, &Final::two_two_n((it - 12) as usize).unwrap()),
+        }
+        per_item.push((it, h.0));
+    }
+    per_item.sort();
+    let mut h = Fnv::new();
+    for (i, d) in per_item {
+        h.u8(i);
+        h.u64(d);
+    }
+    h.0
+}
+
 fn gen_ops(r: &mut Rng, n: usize) -> Vec<Op> {
     (0..n)
-        .map(|_| match r.below(13) {
+        .map(|_| match r.below(15) {
             0 => Op::Decode,
             1 => Op::DecodeFlipped(r.usize_below(512)),
             2 => Op::DecodeCommit,
@@ -192,47 +272,117 @@ fn gen_ops(r: &mut Rng, n: usize) -> Vec<Op> {
             9 => Op::IllTyped(r.byte()),
             10 => Op::Human(r.usize_below(3)),
             11 => Op::Values(r.next_u64()),
-            _ => Op::DropShared,
+            12 => Op::DropShared,
+            _ => Op::TypeTables(r.next_u64()),
         })
         .collect()
 }
 
+struct Workload {
+    prog: Vec<u8>,
+    wit: Vec<u8>,
+    plans: Vec<Vec<Op>>,
+}
+
+fn gen_workload(verif_seed: u64, wl: u64) -> Workload {
+    let mut r = Rng::new(mix(verif_seed, "c20-miri", wl));
+    if wl == 0 {
+        // first-use storm: nothing of the library has run in this process yet; every thread's
+        // first operation initialises the type tables (in its own seeded order), followed by
+        // other jet-free work in own contexts
+        let plans: Vec<Vec<Op>> = (0..3)
+            .map(|_| {
+                let mut v = vec![Op::TypeTables(r.next_u64())];
+                v.push(match r.below(3) {
+                    0 => Op::Values(r.next_u64()),
+                    1 => Op::IllTyped(r.byte()),
+                    _ => Op::Human(r.usize_below(3)),
+                });
+                v
+            })
+            .collect();
+        return Workload { prog: Vec::new(), wit: Vec::new(), plans };
+    }
+    let (prog, wit) = loop {
+        let rec = programs::jetfree_recipe(&mut r, 8);
+        if let Some(b) = programs::build(&rec) {
+            break b.redeem.to_vec_with_witness();
+        }
+    };
+    let n_threads = r.urange(2, 3);
+    let plans: Vec<Vec<Op>> = (0..n_threads)
+        .map(|_| {
+            let k = r.urange(2, 4);
+            gen_ops(&mut r, k)
+        })
+        .collect();
+    Workload { prog, wit, plans }
+}
+
+/// usage:
+///   vmiri ref  <verif_seed> <n_workloads>                 sequential; prints "REF <hex,hex,...>"
+///   vmiri conc <verif_seed> <n_workloads> <hex,hex,...>    threads first; compares with the reference
+/// The reference comes from a fresh sequential (native) process, so that process-wide state is in
+/// its initial condition there; in `conc` mode nothing of the library is touched before the
+/// threads start in odd workloads. Note: workload generation itself uses the library (building
+/// the shared program), in both modes alike.
 fn main() {
     let args: Vec<String> = std::env::args().collect();
-    let verif_seed: u64 = args.get(1).and_then(|s| s.parse().ok()).unwrap_or(1);
-    let n_workloads: u64 = args.get(2).and_then(|s| s.parse().ok()).unwrap_or(1);
-    let mut total_ops = 0u64;
-    for wl in 0..n_workloads {
-        let mut r = Rng::new(mix(verif_seed, "c20-miri", wl));
-        // one shared jet-free program
-        let (prog, wit) = loop {
-            let rec = programs::jetfree_recipe(&mut r, 8);
-            if let Some(b) = programs::build(&rec) {
-                break b.redeem.to_vec_with_witness();
+    let mode = args.get(1).map(|s| s.as_str()).unwrap_or("ref");
+    let verif_seed: u64 = args.get(2).and_then(|s| s.parse().ok()).unwrap_or(1);
+    let n_workloads: u64 = args.get(3).and_then(|s| s.parse().ok()).unwrap_or(1);
+    if mode == "ref" {
+        let mut all: Vec<String> = Vec::new();
+        for wl in 0..n_workloads {
+            let w = gen_workload(verif_seed, wl);
+            let shared = decode(&w.prog, &w.wit);
+            for ops in &w.plans {
+                let mut mine = shared.clone();
+                for op in ops {
+                    all.push(format!("{:016x}", run_op(op, &w.prog, &w.wit, &mut mine)));
+                }
             }
-        };
-        let n_threads = r.urange(2, 3);
-        let plans: Vec<Vec<Op>> = (0..n_threads).map(|_| gen_ops(&mut r, r.urange(2, 4))).collect();
-        // sequential baseline on the main thread
-        let shared = decode(&prog, &wit);
-        let mut baseline: Vec<Vec<u64>> = Vec::new();
-        for ops in &plans {
-            let mut mine = shared.clone();
-            baseline.push(ops.iter().map(|op| run_op(op, &prog, &wit, &mut mine)).collect());
         }
-        let baseline = Arc::new(baseline);
-        let prog = Arc::new(prog);
-        let wit = Arc::new(wit);
+        println!("REF {}", all.join(","));
+        return;
+    }
+    let reference: Vec<u64> = args
+        .get(4)
+        .map(|s| s.split(',').filter_map(|x| u64::from_str_radix(x, 16).ok()).collect())
+        .unwrap_or_default();
+    let mut total_ops = 0u64;
+    let mut pos = 0usize;
+    for wl in 0..n_workloads {
+        let w = gen_workload(verif_seed, wl);
+        // even workloads: programs decoded once by the main thread and shared;
+        // odd workloads: every thread decodes its own copy first thing
+        let share = wl % 2 == 0 && wl != 0;
+        let shared = if share { decode(&w.prog, &w.wit) } else { None };
+        let prog = Arc::new(w.prog);
+        let wit = Arc::new(w.wit);
         let mut hs = Vec::new();
-        for (t, ops) in plans.iter().enumerate() {
+        for (t, ops) in w.plans.iter().enumerate() {
             let ops = ops.clone();
             let mut mine = shared.clone();
-            let (prog, wit, baseline) = (Arc::clone(&prog), Arc::clone(&wit), Arc::clone(&baseline));
+            let (prog, wit) = (Arc::clone(&prog), Arc::clone(&wit));
+            let expect: Vec<u64> = reference.get(pos..pos + ops.len()).map(|x| x.to_vec()).unwrap_or_default();
+            pos += ops.len();
             hs.push(std::thread::spawn(move || {
+                if !share && !prog.is_empty() {
+                    mine = decode(&prog, &wit);
+                }
                 for (k, op) in ops.iter().enumerate() {
                     let d = run_op(op, &prog, &wit, &mut mine);
-                    if d != baseline[t][k] {
-                        println!("MIRI-LEG MISMATCH workload={} thread={} op={} {:?}", wl, t, k, op);
+                    if expect.get(k) != Some(&d) {
+                        println!(
+                            "MIRI-LEG MISMATCH workload={} thread={} op={} {:?}: {:016x} concurrently, reference {:?}",
+                            wl,
+                            t,
+                            k,
+                            op,
+                            d,
+                            expect.get(k).map(|x| format!("{:016x}", x))
+                        );
                         std::process::exit(1);
                     }
                 }
